@@ -43,6 +43,26 @@ typedef struct glyph_t glyph_t;
 #define HASH_SIZE (2 * N_GLYPHS_HIGH_WATER)
 #define HASH_MASK (HASH_SIZE - 1)
 
+#ifdef PIXMAN_VERIF
+/* Verification hooks (compiled only with -DPIXMAN_VERIF):
+ * - PIXMAN_VERIF_GLYPH_HIGH_WATER=<power of two> shrinks the table so that
+ *   table-filling histories are cheap and small scopes can be enumerated;
+ * - a probe sequence longer than the table is reported as a logical-step
+ *   verdict ("would never terminate") instead of hanging.
+ */
+extern void _pixman_verif_fail (const char *what);
+#ifdef PIXMAN_VERIF_GLYPH_HIGH_WATER
+#undef N_GLYPHS_HIGH_WATER
+#undef N_GLYPHS_LOW_WATER
+#define N_GLYPHS_HIGH_WATER  (PIXMAN_VERIF_GLYPH_HIGH_WATER)
+#define N_GLYPHS_LOW_WATER   (PIXMAN_VERIF_GLYPH_HIGH_WATER / 2)
+#endif
+#define VERIF_PROBE(n, what)						\
+    do { if (++(n) > HASH_SIZE) _pixman_verif_fail (what); } while (0)
+#else
+#define VERIF_PROBE(n, what) do { } while (0)
+#endif
+
 struct glyph_t
 {
     void *		font_key;
@@ -98,10 +118,14 @@ lookup_glyph (pixman_glyph_cache_t *cache,
 {
     unsigned idx;
     glyph_t *g;
+#ifdef PIXMAN_VERIF
+    unsigned verif_probes = 0;
+#endif
 
     idx = hash (font_key, glyph_key);
     while ((g = cache->glyphs[idx++ & HASH_MASK]))
     {
+	VERIF_PROBE (verif_probes, "glyph-probe-overrun:lookup");
 	if (g != TOMBSTONE			&&
 	    g->font_key == font_key		&&
 	    g->glyph_key == glyph_key)
@@ -119,6 +143,9 @@ insert_glyph (pixman_glyph_cache_t *cache,
 {
     unsigned idx;
     glyph_t **loc;
+#ifdef PIXMAN_VERIF
+    unsigned verif_probes = 0;
+#endif
 
     idx = hash (glyph->font_key, glyph->glyph_key);
 
@@ -127,6 +154,7 @@ insert_glyph (pixman_glyph_cache_t *cache,
      */
     do
     {
+	VERIF_PROBE (verif_probes, "glyph-probe-overrun:insert");
 	loc = &cache->glyphs[idx++ & HASH_MASK];
     } while (*loc && *loc != TOMBSTONE);
 
@@ -142,10 +170,16 @@ remove_glyph (pixman_glyph_cache_t *cache,
 	      glyph_t              *glyph)
 {
     unsigned idx;
+#ifdef PIXMAN_VERIF
+    unsigned verif_probes = 0;
+#endif
 
     idx = hash (glyph->font_key, glyph->glyph_key);
     while (cache->glyphs[idx & HASH_MASK] != glyph)
+    {
+	VERIF_PROBE (verif_probes, "glyph-probe-overrun:remove");
 	idx++;
+    }
 
     cache->glyphs[idx & HASH_MASK] = TOMBSTONE;
     cache->n_tombstones++;
